@@ -365,6 +365,7 @@ func (c *Check) configuredHoldTimeProvenance(rule string) {
 				okV := false
 				if st, isS := acc.Instr.(*ssa.Store); isS {
 					b := NewAnalysis(p, fn)
+					b.Init = p.closureInit(fn)
 					b.Run()
 					for _, s := range b.At[st] {
 						v := b.ExprAt(s, st.Val)
